@@ -196,18 +196,19 @@ func (monC08) Step(h *History, st *Step) []Violation {
 			}
 			h.Label("c08:settled")
 		case types.AuctionStatusVesting:
-			vq := pre.VQOf(pa.ID)
+			// finishes when its last instalment is released: the last release time of the agreed schedule
+			sched := ba.Schedules
 			want := types.AuctionStatusVesting
-			if len(vq) > 0 && !vq[len(vq)-1].Release.After(t) {
+			if len(sched) > 0 && !sched[len(sched)-1].Release.After(t) {
 				want = types.AuctionStatusFinished
 			}
-			for _, v := range vq {
+			for _, v := range sched {
 				if v.Release.Equal(t) {
 					h.Label("c08:block==release")
 				}
 			}
-			if pa.Status != want {
-				vs = append(vs, viol("C08/finish-at-wrong-block", "block %s: vesting auction %d (last release %s) is %s afterwards, expected %s", tfmt(t), pa.ID, tfmt(vq[len(vq)-1].Release), pa.Status, want))
+			if pa.Status != want && len(sched) > 0 {
+				vs = append(vs, viol("C08/finish-at-wrong-block", "block %s: vesting auction %d (last release %s) is %s afterwards, expected %s", tfmt(t), pa.ID, tfmt(sched[len(sched)-1].Release), pa.Status, want))
 			}
 		default:
 			if pa.Status != ba.Status {
@@ -590,6 +591,9 @@ func (m *monC12) Step(h *History, st *Step) []Violation {
 	}
 	if !st.Res.OK || a == nil {
 		return vs
+	}
+	if !a.Start.After(st.Now) {
+		vs = append(vs, viol("C12/cancel-after-start-time", "step #%d: cancel of auction %d accepted at block time %s although its start time %s has passed (it must have opened in the first block at or after its start time)", st.Idx, a.ID, tfmt(st.Now), tfmt(a.Start)))
 	}
 	m.cancelled[a.ID] = true
 	h.Label("c12:cancelled")
